@@ -25,6 +25,10 @@ REF_ROWS = {  # (downgrade prevention, independent updates, signature verificati
 
 def run(ctx):
     R = ctx.report
+    _u32 = [0, 1, 16, 0x0E1EE000, 0x7FFFFFFF, 0x80000000, 0x80000001, 0xFFFFFF00]
+    for _q in ("MpiGenerator.generate", "MpiGenerator.merge"):
+        generic.no_refusal_on_grid(ctx, "C12-D4 no legal address or size is refused", ctx.repo.func(MOD, _q), {"address": _u32, "size": [48, 64, 240, 256, 4096]},
+                                   inline_depth=2, what="32-bit addresses and area sizes")
     generic.cli_converters(ctx, "C12-D3b CLI converters", "suit_generator.cmd_mpi", 4)
     repo = ctx.repo
     ctx.use_files("suit_generator/cmd_mpi.py")
